@@ -331,3 +331,16 @@ def run(ctx):
     r7_exists_answer(Relabel(ctx, 'C07.R3'), rule='C07.R3')
     r4_table(ctx)
     r5_stream_order(ctx)
+    # equal data gives equal chunks only if the cut points depend on the data alone: the chunker keeps nothing between calls
+    from .c10 import r3_stateless
+
+    r3_stateless(Relabel(ctx, 'C07.R2'))
+    # "the chunk objects are precisely the chunks referenced" is judged against ALL snapshots of the key family: the loader
+    # may drop a snapshot only for the user filter or a foreign tag, never because loading it failed
+    from .c02 import r3_skip_whitelist
+
+    r3_skip_whitelist(Relabel(ctx, 'C07.R6'))
+    # every chunk the producer queued is taken by a worker: the objects stored are the chunks the snapshot references
+    from .c09 import r5b_completion_flag
+
+    r5b_completion_flag(ctx, 'C07.R5')
